@@ -363,7 +363,8 @@ Lemma spec_ops_some p d :
 Proof.
   unfold spec_ops. destruct (enforce_ok p); simpl; [|discriminate].
   destruct (spec_ops_unvalidated p) as [d'|]; [|discriminate].
-  destruct (forallb path_ok d') eqn:F; [|discriminate].
+  destruct (lib_ok d') eqn:F; [|discriminate].
+  unfold lib_ok in F. apply andb_true_iff in F as [F _].
   intros H; inversion H; subst; auto.
 Qed.
 
